@@ -87,6 +87,16 @@ class SymH:
         """'mean': noise sources return their mean; 'free': arbitrary values of the documented support (parameters pois_k, norm_k, uni_k)."""
         symnp.random.reset(mode)
 
+    def memfile(self, suffix='.dat'):
+        from . import symio
+        return symio.MemFile()
+
+    def truncate(self, f, nbytes):
+        return f.truncated(nbytes)
+
+    def filesize(self, f):
+        return len(f.getvalue())
+
     def frac(self, a, b=1):
         return Fraction(a, b)    # always a Fraction: int/int in harness code must never become a float
 
